@@ -17,7 +17,7 @@ EVID = os.path.join(ROOT, "evidence")
 REPLAYS = os.path.join(WORK, "replays")
 JAR = "/opt/veriftools/tla/tla2tools.jar:/opt/veriftools/tla/CommunityModules-deps.jar"
 INT_LIMIT = 1 << 30
-KNOWN_CLASS = {"Trace_Quant": "F6"}
+KNOWN_CLASS = {"Trace_Quant": "F6", "Trace_Num": "F10"}
 
 
 class ToolError(Exception):
